@@ -149,14 +149,58 @@ def run(tier, seed):
         for r in recs: f.write(json.dumps(r) + '\n')
     chunks = vlib.split_lines(trace, vlib.NCPU * 2, wd, 'alg', min_lines=10)
     v = vlib.validate('TraceAlg.tla', 'TraceAlg.cfg', chunks, wd, timeout=3400)
+    # ---- events with a TZID: the algebra on recorded streams (TraceAlgZ.tla).  Three streams per case: the event as written, its
+    # RRULE alone, its EXRULE written as RRULE; EXRULEs with a UTC UNTIL at and around one of their instances, COUNTs, EXDATEs
+    zc = []
+    OFF = {'Europe/Berlin': 1, 'America/New_York': -5, 'Asia/Tokyo': 9, 'Australia/Sydney': 11, 'America/Los_Angeles': -8}     # January offsets
+    for k in range(2000 if th else 160):
+        zn = rnd.choice(sorted(OFF)); off = OFF[zn]
+        d0 = D.datetime(rnd.choice([2015, 2021, 2026]), 1, rnd.randint(2, 6), rnd.randint(0, 23), rnd.choice([0, 30]), 0)
+        rfr, rstep = rnd.choice([('HOURLY', 3600), ('HOURLY;INTERVAL=3', 10800), ('DAILY', 86400), ('MINUTELY;INTERVAL=90', 5400)])
+        rn = rnd.randint(10, 60)
+        rr = 'FREQ=%s;COUNT=%d' % (rfr, rn)
+        xfr, xstep = rnd.choice([('DAILY', 86400), ('HOURLY;INTERVAL=6', 21600), ('HOURLY;INTERVAL=2', 7200), ('HOURLY', 3600)])
+        xn = rnd.randint(1, 12)
+        if rnd.random() < 0.3: xr = 'FREQ=%s;COUNT=%d' % (xfr, xn)
+        else:
+            ul = d0 + D.timedelta(seconds=(xn - 1) * xstep) - D.timedelta(hours=off) + D.timedelta(seconds=rnd.choice([0, 0, 0, 1, -1, 1800, -1800, 3600, -3600]))
+            xr = 'FREQ=%s;UNTIL=%s' % (xfr, ul.strftime('%Y%m%dT%H%M%SZ'))
+        exd = []
+        if rnd.random() < 0.4:
+            for _ in range(rnd.randint(1, 3)):
+                e = d0 + D.timedelta(seconds=rnd.randint(0, rn - 1) * rstep) - D.timedelta(hours=off); exd.append((e.year, e.month, e.day, e.hour, e.minute, e.second))
+        ds = (d0.year, d0.month, d0.day, d0.hour, d0.minute, d0.second)
+        common = {'zone': zn, 'rtext': rr, 'xtext': xr, 'exd': [list(x) for x in exd]}
+        zc.append(dict(common, uid='zf%d' % k, role='full', maxpop=200, mode=rnd.choice('np'), ics=rrgen.event_ics('zf%d' % k, ds, [rr], exrules=[xr], exdates=[exd] if exd else [], tzid=zn)))
+        zc.append(dict(common, uid='zr%d' % k, role='r', maxpop=200, mode='n', ics=rrgen.event_ics('zr%d' % k, ds, [rr], tzid=zn)))
+        zc.append(dict(common, uid='zx%d' % k, role='x', maxpop=400, mode='n', ics=rrgen.event_ics('zx%d' % k, ds, [xr], tzid=zn)))
+    perz = -(-len(zc) // nsl); perz += (3 - perz % 3) % 3
+    with cf.ThreadPoolExecutor(max_workers=nsl) as ex:
+        zr = [r for part in ex.map(lambda k: strmrun.run_cases(drv, zc[k * perz:(k + 1) * perz], wd, 'z_%d' % k, budget=5, maxpop=400), range(nsl)) for r in part]
+    zrecs = []
+    for a, b, c in zip(zr[0::3], zr[1::3], zr[2::3]):
+        assert a['role'] == 'full' and b['role'] == 'r' and c['role'] == 'x'
+        rec = {'e': 'AlgZ', 'zone': a['zone'], 'rtext': a['rtext'], 'xtext': a['xtext'], 'exd': a['exd'], 'full': a.get('occ', []), 'fstop': a.get('stop', 'eos'), 'rset': b.get('occ', []), 'rstop': b.get('stop', 'eos'),
+               'xset': c.get('occ', []), 'xstop': c.get('stop', 'eos'), 'text': a.get('text', '')}
+        for x in (a, b, c):
+            if 'crash' in x: rec['crash'] = x['crash']
+            if 'timeout' in x: rec['timeout'] = True
+        zrecs.append(rec)
+    ztrace = f'{wd}/algz.ndjson'
+    with open(ztrace, 'w') as f:
+        for r in zrecs: f.write(json.dumps(r) + '\n')
+    vz = vlib.validate('TraceAlgZ.tla', 'TraceAlgZ.cfg', vlib.split_lines(ztrace, vlib.NCPU, wd, 'algz', min_lines=10), wd, timeout=1800)
     bad = []
+    for fn, k, g in vz['bad'][:300]:
+        rec = json.loads(vlib.getline(fn, k)); rec['zoned_algebra'] = True
+        bad.append((vlib.save_replay(PID, f'zline{g}.json', rec), rec))
     for fn, k, g in v['bad'][:3000]:
         rec = json.loads(vlib.getline(fn, k)); rec['nocc'] = len(rec.get('occ', [])); rec['occ'] = rec.get('occ', [])[:6]
         bad.append((vlib.save_replay(PID, f'line{g}.json', rec), rec))
     unlisted, listed = vlib.classify(PID, bad, derive)
     cov = {'states': e1['states'], 'transitions': e1['transitions'], 'filter_model_actions': e1['coverage'], 'traces_validated_against_impl': len(recs),
            'samples': [{'ds': recs[i]['ds'], 'rtext': recs[i]['rtext'], 'xtext': recs[i]['xtext'], 'exdates': recs[i]['exdates'][:3], 'rdates': recs[i]['rdates'][:3], 'durkind': recs[i]['durkind'], 'nocc': len(recs[i].get('occ', []))} for i in (0, 1, 2)],
-           'evaluations': len(recs), 'distinct_nontrivial': len(set(r['text'] for r in recs if r.get('occ'))),
+           'evaluations': len(recs) + len(zrecs), 'zoned_algebra_cases': len(zrecs), 'zoned_algebra_mismatching': vz['nbad'], 'distinct_nontrivial': len(set(r['text'] for r in recs if r.get('occ'))),
            'rule': 'one case = one event: 1..2 RRULEs synchronised with DTSTART (every FREQ, the C01 shapes), 0..3 EXDATE lines of 1..5 values naming the first / a middle / consecutive / the last occurrence and instants that are no occurrence, 0..3 RDATE lines (duplicates of instances, instants in between, before DTSTART, ones an exception names), 0..1 EXRULE, duration none (the cron case) / DURATION / DTEND below the gap; DATE and DATE-TIME; its stream is followed to the horizon (<= 600 pops) and compared as a whole with RSetAlg!EventSet',
            'with_exdate': sum(1 for r in recs if r['exdates']), 'with_several_exdate_lines': sum(1 for r in recs if r['n_exdate_lines'] > 1), 'with_rdate': sum(1 for r in recs if r['rdates']), 'with_exrule': sum(1 for r in recs if r['xrules']),
            'zero_duration': sum(1 for r in recs if r['durkind'] == 'none'), 'build': fl, 'mismatching_streams': v['nbad'], 'skipped_undefined_or_undecided': v['nskip'], 'exhaustive': False}
